@@ -11,7 +11,7 @@ Ranking: no fatal outcome of `hostlist_create` (F1 repaired: done) ▸ the only 
 the complete lines, in order, independent of packetisation (done) ▸ one answer per line (done, see also `Props/C04.lean`)
 ▸ whole passes, any number of clients (done under `NoSortAbort`). -/
 namespace Pm.Props.C06
-open Pm Pm.Daemon Pm.Client
+open Pm Pm.Daemon Pm.Client Pm.Daemon.ClientPf
 
 /-- `hostlist_create` as called from `_parse_input` (after the repair of F1) has no fatal outcome: for every argument
     string it returns a host list or reports an error — never `lsd_fatal_error` -/
